@@ -37,13 +37,16 @@ theorem vacate_nodes (s : St) (r : Nat) :
       if (s.nd r).idx < s.nodes.size - 1
       then (s.nodes.setIfInBounds (s.nd r).idx (s.nodes.getD (s.nodes.size - 1) 0)).pop
       else s.nodes.pop := by
-  unfold vacate
+  unfold vacate popSlot
   split
   · simp [moveLast_nodes]
   · rfl
 
+theorem popSlot_kv (s : St) (q : Nat) : kv (popSlot s) q = kv s q := rfl
+
 theorem vacate_kv (s : St) (r q : Nat) : kv (vacate s r) q = kv s q := by
   unfold vacate
+  rw [popSlot_kv]
   split
   · exact moveLast_kv s _ q
   · rfl
@@ -59,7 +62,7 @@ theorem getLast_slot (A B : List Nat) (r l : Nat) :
     (0 :: (A ++ r :: B ++ [l]))[A.length + B.length + 2]? = some l := by
   have h1 : (0 :: (A ++ r :: B ++ [l]))[A.length + B.length + 2]? = (A ++ r :: B ++ [l])[A.length + B.length + 1]? := by
     simp
-  rw [h1, List.append_assoc, List.getElem?_append_right (by omega)]
+  rw [h1, List.append_assoc, List.cons_append, List.getElem?_append_right (by omega)]
   have : A.length + B.length + 1 - A.length = B.length + 1 := by omega
   rw [this]
   simp
@@ -78,7 +81,7 @@ theorem vacate_slots_middle (s : St) (r : Nat) (A B : List Nat) (l : Nat)
     rw [this, getLast_slot]; rfl
   have hnodes : (vacate s r).nodes.toList = 0 :: (A ++ l :: B) := by
     rw [vacate_nodes, if_pos (by rw [hidx, hsize]; omega), Array.toList_pop, Array.toList_setIfInBounds, hN, hidx, hlast,
-      List.set_cons_succ, List.append_assoc, set_length_append]
+      List.set_cons_succ, List.append_assoc, List.cons_append, set_length_append]
     have : (0 :: (A ++ l :: (B ++ [l]))) = (0 :: (A ++ l :: B)) ++ [l] := by simp
     rw [this, List.dropLast_concat]
   rw [slots_eq, hnodes]
